@@ -231,3 +231,19 @@ func stripConv(v ssa.Value) ssa.Value {
 		}
 	}
 }
+
+// edgeOnly: block d is reached only through the edge from `id` to its successor number i
+// (the successor is d or dominates d, and is entered from `id` alone, back edges of its own loops aside).
+func edgeOnly(id *ssa.BasicBlock, i int, d *ssa.BasicBlock) bool {
+	succ := id.Succs[i]
+	if succ != d && !succ.Dominates(d) {
+		return false
+	}
+	for _, p := range succ.Preds {
+		if p != id && !succ.Dominates(p) {
+			return false
+		}
+	}
+	// both edges of id may lead to the same block
+	return id.Succs[1-i] != succ
+}
